@@ -7,7 +7,7 @@ import z3
 
 from vf import symx
 from vf.symx import Driver, SymStr
-from vf.common import Check
+from vf.common import Check, stable_hash
 from vf.eqsmt import to_z3, Untranslatable
 from vf.par import pmap
 from vf.emit import emit
@@ -250,7 +250,7 @@ def descriptions(tier):
     L = 2 if tier == 'quick' else 3
     for n in range(1, L + 1):
         for combo in itertools.product(TOKENS, repeat=n):
-            if n == 3 and (hash(combo) % 5):
+            if n == 3 and (stable_hash(combo) % 5):
                 continue
             out.append(' '.join(combo) if n > 1 and combo[0] != ' ' else ''.join(combo))
     return out
